@@ -376,6 +376,15 @@ func (fr *Frame) assign(st *State, l ast.Expr, v Val) {
 		}
 	case *ast.SelectorExpr:
 		sel := fr.info.Selections[n]
+		if sel == nil {
+			// pkg.Var = ... : a package-level variable of an imported package
+			if o, ok := fr.info.ObjectOf(n.Sel).(*types.Var); ok && o.Pkg() != nil && o.Parent() == o.Pkg().Scope() {
+				fr.x.u.notes = append(fr.x.u.notes, "assigns package variable "+o.Pkg().Name()+"."+o.Name())
+				x.globals[o] = Val{T: v.T, S: v.S, Ty: o.Type()}
+				x.assignedGlobals = append(x.assignedGlobals, o.Pkg().Name()+"."+o.Name())
+				return
+			}
+		}
 		if sel == nil || sel.Kind() != types.FieldVal {
 			fr.unsupported(st, n, "assignment target", nil)
 			return
